@@ -13,7 +13,40 @@ import (
 	"verif/engine/props"
 )
 
+// cold: concurrent compilations first, in a process that has compiled nothing yet (lazily
+// filled shared caches are only written on first use), compared with sequential results afterwards.
+func cold() {
+	n := props.C07NumSources()
+	runtime.GOMAXPROCS(16)
+	got := make([][2]string, n)
+	var wg sync.WaitGroup
+	for g := 0; g < 2*n; g++ {
+		wg.Add(1)
+		go func(g int) {
+			defer wg.Done()
+			got[g%n][g/n] = props.C07Compile(g % n)
+		}(g)
+	}
+	wg.Wait()
+	bad := 0
+	for i := 0; i < n; i++ {
+		want := props.C07Compile(i)
+		if got[i][0] != want || got[i][1] != want {
+			bad++
+			fmt.Printf("MISMATCH source %d in the cold concurrent start\n", i)
+		}
+	}
+	if bad > 0 {
+		os.Exit(1)
+	}
+	fmt.Printf("race monitor (cold start): %d concurrent compilations, no mismatch\n", 2*n)
+}
+
 func main() {
+	if len(os.Args) > 1 && os.Args[1] == "cold" {
+		cold()
+		return
+	}
 	n := props.C07NumSources()
 	seq := make([]string, n)
 	for i := 0; i < n; i++ {
